@@ -250,10 +250,10 @@ PROPERTIES['C18'] = {
 }
 
 GK = {'kind': 'kani', 'name': 'gk-corpus', 'crate': 'gk', 'repo_crates': ['truc', 'truc_runtime'], 'harnesses': ['::h::'],
-      'flags': ['--cbmc-args', '--memory-leak-check'], 'tier_env': 'GK_TIER', 'env': {'GK_DUMP_DIR': os.path.join(BUILD, 'gk-gen')},
+      'flags': ['--cbmc-args', '--memory-leak-check'], 'tier_env': 'GK_TIER', 'env': {'GK_DUMP_DIR': os.path.join(BUILD, 'gk-gen'), 'GK_SEED': str(int(os.environ.get('VERIF_SEED', '0') or 0))},
       'expect': {'.': {'covers': 'any'}}, 'min_harnesses': 40, 'timeout': 6000,
       'functions': ['generated new / new_uninit / unpack / accessors / Drop / 4 x From / clone / clone_from of every corpus module (emitted by truc::generator::generate on this run)'],
-      'assumptions': ['corpus of definitions (quick 4 modules, thorough 6): the "all generated modules" quantifier is sampled; the generator itself (codegen, format!, itertools) is outside both verifiers',
+      'assumptions': ['corpus of definitions (quick: 5 fixed + 2 random modules drawn from VERIF_SEED; thorough: 7 fixed + 12 random): the "all generated modules" quantifier is sampled; the generator itself (codegen, format!, itertools) is outside both verifiers',
                       'per module each harness is straight-line over full-domain symbolic field values: complete for that module']}
 CALLSITES = {'kind': 'callsites', 'name': 'c07-callsites'}
 
